@@ -96,6 +96,64 @@ theorem subtraction_fails_mixed :
     let o := evalClass (.plain false [⟨false, .single 53⟩, ⟨true, digits⟩])
     (c.isub o).contains 98 = true ∧ (c.contains 98 && !o.contains 98) = false := by decide
 
+/-! ### the class scanner (transcribed `parse_character_class` / `_re_char_set.split` /
+`iterparse_character_subset`): kernel-checked witnesses of findings F12s, F12u and agreement on
+ordinary classes.  There is no ∀-theorem about the scanner; it is tied to the code, bugs
+included, by the CLS correspondence only. -/
+
+/-- small stand-in tables for the witnesses: `\d` = ASCII digits, `\s` = XSD white space -/
+def T0 : MTables := { esc := fun e => if e == 100 then digits else white, prop := fun _ => none }
+def S0 : Tables := { prop := fun n => if n == nameOf "Nd" then some digits else none }
+
+/-- the XSD reading of a class text: grammar [75]-[81], then `specClass` -/
+def specOfText (s : List Ch) (x : Nat) : Option Bool :=
+  match s with
+  | 91 :: rest =>
+    match pClass {} (3 * rest.length + 4) rest {} with
+    | some (c, [], _) => (c.toClassE S0).map fun e => specClass e x
+    | _ => none
+  | _ => none
+
+/-- F12s witness `[\\d]` (escaped backslash, then `d`): the implementation reads backslash + `\d` -/
+theorem scanner_fails_escaped_backslash :
+    let src := [91, 92, 92, 100, 93]
+    (parseClassText T0 false true src).map (fun c => (c.contains 100, c.contains 53)) = some (false, true) ∧
+    specOfText src 100 = some true ∧ specOfText src 53 = some false := by decide
+
+/-- F12s witness `[\$]`: contains the backslash -/
+theorem scanner_fails_escaped_dollar :
+    let src := [91, 92, 36, 93]
+    (parseClassText T0 false true src).map (·.contains 92) = some true ∧ specOfText src 92 = some false := by decide
+
+/-- F12s witness `[\n-z]`: read as the three characters newline, `-`, `z` instead of a range -/
+theorem scanner_fails_escape_range_start :
+    let src := [91, 92, 110, 45, 122, 93]
+    (parseClassText T0 false true src).map (fun c => (c.contains 97, c.contains 122)) = some (false, true) ∧
+    specOfText src 97 = some true := by decide
+
+/-- F12s witness `[\q]`: accepted (XSD: no such escape) -/
+theorem scanner_accepts_bad_escape :
+    let src := [91, 92, 113, 93]
+    (parseClassText T0 false true src).isSome = true ∧ specOfText src 113 = none := by decide
+
+/-- F12u witness `[\p{IsFoo}]` under XSD 1.0: accepted as "all characters" -/
+theorem scanner_accepts_unknown_block_v10 :
+    let src := [91, 92, 112, 123, 73, 115, 70, 111, 111, 125, 93]
+    (parseClassText T0 true true src).map (·.contains 97) = some true ∧ specOfText src 97 = none := by decide
+
+/-- test on literals: scanner + algebra agree with the XSD reading on `[a-z-[aeiou]]`, `[^\d\-x]`,
+`[\]a-c-]`, and both reject `[]`, `[a-[b]` and `[z-a]` -/
+example :
+    (∀ x ∈ [97, 98, 101, 122, 45, 123], (parseClassText T0 false true [91, 97, 45, 122, 45, 91, 97, 101, 105, 111, 117, 93, 93]).map (·.contains x)
+        = specOfText [91, 97, 45, 122, 45, 91, 97, 101, 105, 111, 117, 93, 93] x) ∧
+    (∀ x ∈ [53, 45, 120, 121], (parseClassText T0 false true [91, 94, 92, 100, 92, 45, 120, 93]).map (·.contains x)
+        = specOfText [91, 94, 92, 100, 92, 45, 120, 93] x) ∧
+    (∀ x ∈ [93, 97, 98, 99, 100, 45], (parseClassText T0 false true [91, 92, 93, 97, 45, 99, 45, 93]).map (·.contains x)
+        = specOfText [91, 92, 93, 97, 45, 99, 45, 93] x) ∧
+    parseClassText T0 false true [91, 93] = none ∧ specOfText [91, 93] 97 = none ∧
+    (parseClassText T0 false true [91, 97, 45, 91, 98, 93]).isNone = true ∧ specOfText [91, 97, 45, 91, 98, 93] 97 = none ∧
+    (parseClassText T0 false true [91, 122, 45, 97, 93]).isNone = true ∧ specOfText [91, 122, 45, 97, 93] 97 = none := by decide
+
 /-! ## layer 2: the derivative matcher is the language -/
 
 /-- the executable matcher decides the denotational language, for every expression, word and
